@@ -827,6 +827,11 @@ func (ts tasks) responses(rpcLog RPCLogger) jmessages {
 			rsp.R = task.val
 		} else if e, ok := task.err.(*Error); ok {
 			rsp.E = e
+			if len(e.Data) != 0 && !json.Valid(e.Data) {
+				// Error data that are not valid JSON cannot be encoded, and
+				// would make the whole response message fail to send.
+				rsp.E = &Error{Code: e.Code, Message: e.Message}
+			}
 		} else if c := ErrorCode(task.err); c != NoError {
 			rsp.E = &Error{Code: c, Message: task.err.Error()}
 		} else {
